@@ -1,0 +1,85 @@
+//go:build verif
+
+package httpserver
+
+import (
+	"fmt"
+
+	"github.com/tmpim/casket"
+)
+
+// VerifC15Site is a snapshot of the address and TLS flags of one site configuration.
+type VerifC15Site struct {
+	Original   string `json:"original"`
+	Scheme     string `json:"scheme"`
+	Host       string `json:"host"`
+	Port       string `json:"port"`
+	Path       string `json:"path"`
+	ListenHost string `json:"listen_host"`
+	Hostname   string `json:"tls_hostname"`
+	Enabled    bool   `json:"enabled"`
+	Managed    bool   `json:"managed"`
+	Manual     bool   `json:"manual"`
+	SelfSigned bool   `json:"self_signed"`
+	NoRedirect bool   `json:"no_redirect"`
+	OnDemand   bool   `json:"on_demand"`
+	ACMEEmail  string `json:"acme_email"`
+	Declared   bool   `json:"declared"` // has a key in the Casketfile (false: synthesised)
+}
+
+// VerifC15Stages is what the pure stages of activateHTTPS (without certificate
+// management) followed by MakeServers did to the site list of a context.
+type VerifC15Stages struct {
+	Directives []VerifC15Site  // as the directives left the sites
+	Marked     []VerifC15Site  // after markQualifiedForAutoHTTPS
+	Enabled    []VerifC15Site  // after enableAutoHTTPS(cfgs, false)
+	Redirects  []VerifC15Site  // after makePlaintextRedirects
+	Final      []VerifC15Site  // after MakeServers (nil if it failed)
+	Servers    []casket.Server // the servers MakeServers returned
+	ServerErr  error           // the error MakeServers returned
+}
+
+func verifC15Snapshot(ctx *httpContext) []VerifC15Site {
+	declared := make(map[*SiteConfig]bool)
+	for _, c := range ctx.keysToSiteConfigs {
+		declared[c] = true
+	}
+	out := make([]VerifC15Site, 0, len(ctx.siteConfigs))
+	for _, c := range ctx.siteConfigs {
+		s := VerifC15Site{Original: c.Addr.Original, Scheme: c.Addr.Scheme, Host: c.Addr.Host, Port: c.Addr.Port,
+			Path: c.Addr.Path, ListenHost: c.ListenHost, Declared: declared[c]}
+		if c.TLS != nil {
+			s.Hostname, s.Enabled, s.Managed, s.Manual = c.TLS.Hostname, c.TLS.Enabled, c.TLS.Managed, c.TLS.Manual
+			s.SelfSigned, s.NoRedirect, s.ACMEEmail = c.TLS.SelfSigned, c.TLS.NoRedirect, c.TLS.ACMEEmail
+			s.OnDemand = c.TLS.Manager != nil && c.TLS.Manager.OnDemand != nil
+		}
+		out = append(out, s)
+	}
+	return out
+}
+
+// VerifC15AutoHTTPS runs, on a context whose directives have been executed with the parsing
+// callbacks skipped, the stages activateHTTPS is composed of, in its order, leaving out only
+// certificate management (ObtainCertAsync, loading and renewing certificates):
+// markQualifiedForAutoHTTPS, enableAutoHTTPS(cfgs, false), makePlaintextRedirects; then
+// MakeServers. Nothing listens. (verification build only)
+func VerifC15AutoHTTPS(cctx casket.Context) (*VerifC15Stages, error) {
+	ctx, ok := cctx.(*httpContext)
+	if !ok {
+		return nil, fmt.Errorf("not an http context: %T", cctx)
+	}
+	st := &VerifC15Stages{Directives: verifC15Snapshot(ctx)}
+	markQualifiedForAutoHTTPS(ctx.siteConfigs)
+	st.Marked = verifC15Snapshot(ctx)
+	if err := enableAutoHTTPS(ctx.siteConfigs, false); err != nil {
+		return st, err
+	}
+	st.Enabled = verifC15Snapshot(ctx)
+	ctx.siteConfigs = makePlaintextRedirects(ctx.siteConfigs)
+	st.Redirects = verifC15Snapshot(ctx)
+	st.Servers, st.ServerErr = ctx.MakeServers()
+	if st.ServerErr == nil {
+		st.Final = verifC15Snapshot(ctx)
+	}
+	return st, nil
+}
